@@ -222,7 +222,9 @@ deriving DecidableEq, Repr
 
 structure ClassInfo where
   id : ClassId
-  «meta» : XmlMeta
+  /-- `XmlMetaBuilder.build(clazz, parent_ns)` for every parent namespace of the universe;
+  a class with its own `Meta.namespace` has the same metadata under each of them -/
+  metas : List (Option Str × XmlMeta)
   /-- `__mro__` without `object`, the class itself first -/
   mro : List ClassId
   /-- `__bases__` -/
@@ -239,6 +241,12 @@ structure Ctx where
   datatypes : List (QN × Option PT)
 
 def Ctx.find (Γ : Ctx) (c : ClassId) : Option ClassInfo := Γ.classes.find? (·.id = c)
+
+/-- the metadata of a class built under parent namespace `pns` -/
+def ClassInfo.metaFor (ci : ClassInfo) (pns : Option Str) : Option XmlMeta :=
+  match ci.metas.find? (·.1 = pns) with
+  | some (_, m) => some m
+  | none => ci.metas.head?.map (·.2)
 
 def Ctx.isSubclass (Γ : Ctx) (c parent : ClassId) : Bool :=
   match Γ.find c with
